@@ -67,6 +67,23 @@ def special_packets(rnd):
                     if got == (target or 0xffff):
                         out.append(('IPv6-UDP-CoAP' if v6 else 'IPv4-UDP-CoAP', (P.ipv6(rnd, u, 17, src, dst) if v6 else P.ipv4(rnd, u, 17, src, dst))))
                         break
+    # pseudo-headers whose own one's complement sum is a corner value (0xFFFF, 0xFFFE, 0x0001): the last address word is solved
+    for v6 in (True, False):
+        for target in (0xffff, 0xffff, 0xfffe, 0x0001, 0x8000):
+            body = bytes([0x40, 1, 0, 1, 0xff]) + rnd.randbytes(rnd.choice([1, 2, 5]))
+            ulen = 8 + len(body)
+            src = rnd.randbytes(16 if v6 else 4)
+            dst0 = rnd.randbytes(14 if v6 else 2)
+            tail = struct.pack('!IHBB', ulen, 0, 0, 17) if v6 else struct.pack('!BBH', 0, 17, ulen)
+            s0 = (~P.csum16(src + dst0 + tail)) & 0xffff          # folded sum of everything but the last address word
+            w = (target - s0) % 0xffff
+            for ww in (w, w or 0xffff):
+                dst = dst0 + struct.pack('!H', ww)
+                if ((~P.csum16(src + dst + tail)) & 0xffff) == target:
+                    f = (lambda x, a=src, d_=dst: P.udp_checksum_v6(a, d_, x)) if v6 else (lambda x, a=src, d_=dst: P.udp_checksum_v4(a, d_, x))
+                    u = P.udp(rnd, body, csum=f)
+                    out.append(('IPv6-UDP-CoAP' if v6 else 'IPv4-UDP-CoAP', (P.ipv6(rnd, u, 17, src, dst) if v6 else P.ipv4(rnd, u, 17, src, dst))))
+                    break
     return out
 
 
@@ -127,6 +144,28 @@ def run(rep, tier, seed):
             s = ref_compress(n_pdesc(pd), n_rule(rule))
             if s is not None:
                 case_decompress(b, s, rule, None, klass='decompress-compute:%s:%d' % (stack, len(subset)), expect=b2s(pkt), side=rnd.choice([L, R]))
+        # the same with a direction: some non-computed fields carry an Up and a Dw descriptor, in either order, so that descriptors the
+        # direction filters out sit in front of and between the computed fields (their positions are positions in the FILTERED list)
+        if comp:
+            d_ = rnd.choice([DI.UP, DI.DOWN])
+            o_ = DI.DOWN if d_ == DI.UP else DI.UP
+            subset = [k for k, f in comp if rnd.random() < 0.7]
+            fds = []
+            for k, f in enumerate(pd.fields):
+                if k in subset:
+                    fds.append(gen_rfd(rnd, f, 'comp', DI.BIDIRECTIONAL))
+                elif rnd.random() < 0.4:
+                    pair = [gen_rfd(rnd, f, rnd.choice(['vs', 'ns', 'lsb']), d_), gen_rfd(rnd, f, rnd.choice(['vs', 'vsv', 'lsb']), o_)]
+                    if rnd.random() < 0.5:
+                        pair.reverse()
+                    fds += pair
+                else:
+                    fds.append(gen_rfd(rnd, f, rnd.choice(['vs', 'ns', 'lsb']), DI.BIDIRECTIONAL))
+            rule = RuleDescriptor(id=mk(randbits(rnd, rnd.randint(1, 8))), field_descriptors=fds)
+            dc = 'U' if d_ == DI.UP else 'D'
+            s = ref_compress(dict(n_pdesc(pd), dir=dc), n_rule(rule), dc)
+            if s is not None:
+                case_decompress(b, s, rule, d_, klass='decompress-compute-direction:%s' % stack, expect=b2s(pkt), side=rnd.choice([L, R]))
     b.run()
 
 
